@@ -76,10 +76,60 @@ def run(ctx):
     ctx.cov["evaluations"] += len(c3)
     ctx.cov["distinct_nontrivial"] += len(allfens)
     ctx.sample({"case": c3[0], "engine": o1[0]})
+    # (d) the same through the real entry point: `position fen F [moves ...]` / `position startpos moves ...` on the engine binary,
+    #     then `printboard`: the FEN shown must be F / the FEN the rules give after the moves (Uci::position_command, moves_command)
+    import uciglue
+    exe = engine_binary("plain")
+    ucases, uexp = [], []
+    for f in ctx.rng.sample(allfens, min(len(allfens), 300 if q else 4000)):
+        ucases.append(("fen", f, []))
+        uexp.append(f)
+    gsel = [g for g in games if g[1]]
+    for (f, ms), r in list(zip(games, res)):
+        if not ms or len(ucases) > (700 if q else 9000):
+            continue
+        fs = (r or "").split(" ; ")
+        k = ctx.rng.randrange(1, len(ms) + 1)
+        if k < len(fs) and fs[k] and not fs[k].startswith("BAD"):
+            ucases.append(("startpos", None, ms[:k]) if f == posgen.START else ("fen", f, ms[:k]))
+            uexp.append(fs[k])
+    obs = uciglue.observe(exe, ucases, want=("fen",))
+    nu = 0
+    for c, e, o in zip(ucases, uexp, obs):
+        nu += 1
+        if o["fen"] != e:
+            nviol += 1
+            if nviol <= 6:
+                ctx.violation("UCI level: after '%s' printboard shows [%s], expected [%s]" % (o["cmd"][:300], o["fen"], e),
+                              {"session": [o["cmd"], "printboard"], "engine_fen": o["fen"], "expected_fen": e, "raw": o["raw"]}, key="c16:uci:" + o["cmd"][:200])
+    ctx.cov["evaluations"] += nu
+    ctx.notes["uci_level_position_commands"] = nu
+    # (e) stateful sessions: consecutive related commands (same root with longer / shorter / diverging move lists, take-backs over
+    #     castling / en passant / promotions, the engine's `moves` command, ucinewgame, FENs differing only in trailing digits); after
+    #     EVERY command printboard must show the FEN the rules give for  position R moves L := play(R, L) ;  moves L := play(state, L)
+    gpool = [g for g in games if len(g[1]) >= 4][: (400 if q else 4000)]
+    sessions = uciglue.gen_sessions(ctx.rng, gpool, 120 if q else 2500)
+    exp = uciglue.expected_fens(model, run_lines, sessions, shards=NPROC)
+    got = uciglue.run_sessions(exe, sessions)
+    ns = 0
+    for sess, ex_, gt in zip(sessions, exp, got):
+        for i, ((cmd, st), e, o) in enumerate(zip(sess, ex_, gt)):
+            if e is None:
+                break
+            ns += 1
+            if o["fen"] != e:
+                nviol += 1
+                if nviol <= 8:
+                    ctx.violation("UCI session: after the commands [%s] printboard shows [%s], the rules give [%s]"
+                                  % (" ; ".join(c[:160] for c, _ in sess[: i + 1]), o["fen"], e),
+                                  {"session": [c for c, _ in sess[: i + 1]] + ["printboard"], "engine_fen": o["fen"], "expected_fen": e}, key="c16:sess:%s" % " ; ".join(c for c, _ in sess[: i + 1])[:300])
+                break
+    ctx.cov["evaluations"] += ns
+    ctx.notes["uci_session_commands_checked"] = ns
     ctx.cov["rule"] = ("encodings: all 64x64x5 (from,to,promotion) triples, both castling codes, decode of %d 17-bit codes, a grid of MoveInfo "
                        "field tuples (exhaustive / grid, engine accessor output = Coq model output and = the input fields); text: every legal "
                        "move of %d constructed positions and %d model-driven games is printed and parsed back by both sides; FEN: every "
-                       "distinct position along those games (%d) is reloaded from the engine's own FEN and every field compared."
+                       "distinct position along those games (%d) is reloaded from the engine's own FEN and every field compared; the same through the real binary (position fen / startpos + moves, then printboard)."
                        % (len([c for c in cases if c.startswith('dec')]), len(fens), len(starts), len(allfens)))
     if not ok and nviol + v1 == 0:
         ctx.violation("Coq obligations for C16 no longer check (%s); no failing input found" % ", ".join(failed),
